@@ -132,9 +132,13 @@ func (s *Netceptor) listen(ctx context.Context, service string, tlscfg *tls.Conf
 	go func() {
 		select {
 		case <-s.context.Done():
-			_ = ql.Close()
+			// The listener's socket ends with the node's context and its QUIC transport then
+			// shuts the QUIC listener down by itself.  Closing the QUIC listener from here at
+			// the same moment makes the two shutdowns wait for each other forever.
 		case <-ctx.Done():
-			_ = ql.Close()
+			if s.context.Err() == nil {
+				_ = ql.Close()
+			}
 		case <-doneChan:
 			return
 		}
